@@ -402,8 +402,9 @@ theorem unprotect_protect_request (cipher : Bytes → Bytes → Bytes) (cS cR : 
 /-- **Responses**: the recipient of `protectResponse … m` (same binding `b` on both sides: the request's kid, Partial
 IV and nonce) recovers `m` with the Observe value the recipient derives from the Partial IV (`normalize`, D14.3) —
 the response's own Partial IV if it carries one (`seq = some n`, fresh nonce), else the request's (request nonce
-reused, D14.5).  Type and message id are outside the protected content (D14.7: `sepMid`), they are the outer
-message's.  For every cipher, matching contexts, binding, code < 256, encodable sorted options. -/
+used) — BOTH forms RFC 8613 §8.3 allows, whichever the sender chose; which one it chooses is D14.5
+(`unprotect_protect_response_for` below).  Type and message id are outside the protected content (D14.7: `sepMid`), they
+are the outer message's.  For every cipher, matching contexts, binding, code < 256, encodable sorted options. -/
 theorem unprotect_protect_response (cipher : Bytes → Bytes → Bytes) (cS cR : Ctx) (b : Binding) (m : Msg)
     (seq : Option Nat) (sepMid : Option Nat)
     (hm : Matching cS cR)
@@ -453,10 +454,84 @@ theorem unprotect_protect_response (cipher : Bytes → Bytes → Bytes) (cS cR :
     simp only [obsSet_lambda, split_merge_response m.opts _ _ hsorted hno, normalize]
     rfl
 
+/-- **Responses under D14.5** (`protectResponseFor`: what the server really sends): the response carries its own Partial
+IV iff the caller asks for it, or it carries Observe, or the request it answers carried Observe (`ownPiv`); the client
+recovers the message either way — through the own-Partial-IV branch of §8.4 in the first case (Observe value = the low
+bytes of the RESPONSE's Partial IV `pivBytes seq`), through the request-nonce branch in the second. -/
+theorem unprotect_protect_response_for (cipher : Bytes → Bytes → Bytes) (cS cR : Ctx) (b : Binding) (reqObserve : Bool)
+    (m : Msg) (ask : Bool) (seq : Nat) (sepMid : Option Nat)
+    (hm : Matching cS cR)
+    (hsorted : m.opts.Pairwise (fun a b => a.1 ≤ b.1))
+    (hcode : m.code < 256)
+    (hwire : ∀ o ∈ m.opts, o.1 ≤ 65535 ∧ o.2.length ≤ 65804) :
+    ∀ r, protectResponseFor cipher cS b reqObserve m ask seq sepMid = some r →
+      unprotectResponse cipher cR (some b) r =
+        .ok { normalize false (if ownPiv ask reqObserve m then pivBytes seq else b.piv) m with type := r.type, mid := r.mid } b := by
+  intro r hr
+  unfold protectResponseFor at hr
+  have := unprotect_protect_response cipher cS cR b m _ sepMid hm hsorted hcode hwire r hr
+  rw [this]
+  cases ownPiv ask reqObserve m <;> rfl
+
+/-- **The nonce of an Observe request protects no response** (D14.5; RFC 8613 §5.2 / §8.3: the nonce of a request at most
+once — and the binding of an Observe request stays, D14.16).  A response to a request that carried an Observe option —
+notification or not, asked for a Partial IV or not, whatever its code — (1) is the §8.3 message with its OWN Partial IV
+`pivBytes seq`, i.e. protected under the nonce of the server's Sender ID and ITS sequence number; (2) does not depend on the
+nonce of the request at all (any other value in the binding gives the same bytes); (3) its OSCORE option carries that
+Partial IV (not empty).  For every cipher, context, binding, message and sequence number. -/
+theorem observe_request_response_own_piv (cipher : Bytes → Bytes → Bytes) (c : Ctx) (b : Binding) (m : Msg) (ask : Bool)
+    (seq : Nat) (sepMid : Option Nat) :
+    protectResponseFor cipher c b true m ask seq sepMid = protectResponse cipher c b m (some seq) sepMid ∧
+    (∀ n', protectResponseFor cipher c { b with nonce := n' } true m ask seq sepMid =
+      protectResponseFor cipher c b true m ask seq sepMid) ∧
+    (∀ r, protectResponseFor cipher c b true m ask seq sepMid = some r →
+      oscoreValue r.opts = some (optEncode ⟨pivBytes seq, none, none⟩) ∧ pivBytes seq ≠ [] ∧
+      r.payload = aeadSeal cipher c.senderKey (nonce c.commonIV c.sid (pivBytes seq)) (aad c.alg b.kid b.piv)
+        (encPlain m.code (innerOpts false m.opts) m.payload)) := by
+  have h1 : protectResponseFor cipher c b true m ask seq sepMid = protectResponse cipher c b m (some seq) sepMid := by
+    unfold protectResponseFor ownPiv
+    simp
+  refine ⟨h1, ?_, ?_⟩
+  · intro n'
+    have h2 : protectResponseFor cipher c { b with nonce := n' } true m ask seq sepMid =
+        protectResponse cipher c { b with nonce := n' } m (some seq) sepMid := by
+      unfold protectResponseFor ownPiv
+      simp
+    rw [h1, h2]
+    unfold protectResponse
+    rfl
+  · intro r hr
+    rw [h1] at hr
+    have hany : (m.opts.any fun o => decide (o.1 = optOscore)) = false := by
+      cases h : (m.opts.any fun o => decide (o.1 = optOscore)) with
+      | false => rfl
+      | true => simp [protectResponse, h] at hr
+    have hseq : seq ≤ maxSeq := by
+      by_cases h : seq > maxSeq
+      · simp [protectResponse, hany, h] at hr
+      · omega
+    have hs : ¬ seq > maxSeq := by omega
+    have hne : pivBytes seq ≠ [] := pivBytes_ne_nil seq (by unfold maxSeq at hseq; omega)
+    unfold protectResponse at hr
+    simp only [hany, hs, decide_false, if_false, Bool.false_eq_true] at hr
+    injection hr with hr
+    subst hr
+    exact ⟨oscoreValue_withOscore _ _ (outerOpts_no_oscore m.opts), hne, rfl⟩
+
+/-- the other half of D14.5: a response to a request WITHOUT Observe that carries no Observe itself and for which no Partial
+IV is asked uses the nonce of the request (and no sequence number) — `request_nonce_at_most_once` below shows it is the
+only one -/
+theorem plain_response_request_nonce (cipher : Bytes → Bytes → Bytes) (c : Ctx) (b : Binding) (m : Msg) (seq : Nat)
+    (sepMid : Option Nat) (h : hasObserve m.opts = false) :
+    protectResponseFor cipher c b false m false seq sepMid = protectResponse cipher c b m none sepMid := by
+  unfold protectResponseFor ownPiv
+  simp [h]
+
 /-- **`unprotect ∘ protect`, both directions**, for every block cipher, matching contexts (Sender ID + ID Context short
 enough for the 255-byte OSCORE option: ≤ 248 bytes together), every message with code < 256 and encodable sorted
 options: a protected request is recovered exactly, a protected response is recovered up to the Observe value the
-recipient derives (D14.3) and the outer type / message id (D14.7). -/
+recipient derives (D14.3) and the outer type / message id (D14.7) — in either §8.3 form, and in the form D14.5 selects
+(own Partial IV whenever the request carried Observe). -/
 theorem unprotect_protect (cipher : Bytes → Bytes → Bytes) (cS cR : Ctx) (m : Msg)
     (hm : Matching cS cR)
     (hsorted : m.opts.Pairwise (fun a b => a.1 ≤ b.1))
@@ -466,8 +541,12 @@ theorem unprotect_protect (cipher : Bytes → Bytes → Bytes) (cS cR : Ctx) (m 
     (∀ seq r, protectRequest cipher cS m seq = some r → unprotectRequest cipher cR r.1 = .ok m r.2) ∧
     (∀ b seq sepMid r, protectResponse cipher cS b m seq sepMid = some r →
       unprotectResponse cipher cR (some b) r =
-        .ok { normalize false (match seq with | some n => pivBytes n | none => b.piv) m with type := r.type, mid := r.mid } b) := by
-  refine ⟨?_, fun b seq sepMid => unprotect_protect_response cipher cS cR b m seq sepMid hm hsorted hcode hwire⟩
+        .ok { normalize false (match seq with | some n => pivBytes n | none => b.piv) m with type := r.type, mid := r.mid } b) ∧
+    (∀ b reqObserve ask seq sepMid r, protectResponseFor cipher cS b reqObserve m ask seq sepMid = some r →
+      unprotectResponse cipher cR (some b) r =
+        .ok { normalize false (if ownPiv ask reqObserve m then pivBytes seq else b.piv) m with type := r.type, mid := r.mid } b) := by
+  refine ⟨?_, fun b seq sepMid => unprotect_protect_response cipher cS cR b m seq sepMid hm hsorted hcode hwire,
+    fun b o ask seq sepMid => unprotect_protect_response_for cipher cS cR b o m ask seq sepMid hm hsorted hcode hwire⟩
   intro seq r hr
   have hseq : seq ≤ maxSeq := by
     by_cases h : seq > maxSeq
@@ -491,7 +570,8 @@ whatever was there before (a re-used token is re-bound: RFC 8613 §8.3/§8.4, §
 theorem association_tracks_latest_request (cipher : Bytes → Bytes → Bytes) (c : Ctx) (steps : List CStep) :
     (∀ t e, sFind (clientRun cipher c [] steps) t = some e → latestRequest cipher c steps t = some e.b) ∧
     (∀ m seq pm b, protectRequest cipher c m seq = some (pm, b) →
-      sFind (clientRun cipher c [] (steps ++ [.send m seq])) m.token = some ⟨m.token, b, isRegistration m.opts⟩ ∧
+      sFind (clientRun cipher c [] (steps ++ [.send m seq])) m.token =
+        some ⟨m.token, b, isRegistration m.opts, hasObserve m.opts⟩ ∧
       latestRequest cipher c (steps ++ [.send m seq]) m.token = some b) := by
   refine ⟨fun t e he => ((SInv_clientRun cipher c steps) t e he).1, ?_⟩
   intro m seq pm b hp
@@ -565,9 +645,10 @@ theorem rejected_response_keeps_binding (cipher : Bytes → Bytes → Bytes) (c 
 responses lost, late, duplicated, forged — `steps` is arbitrary) and every token `t` the client holds a binding `e` for
 afterwards: (1) `e.b` is the binding of the latest request sent with `t`, that request is in the sequence, and the server
 that verifies it obtains the same message and the same binding (`unprotect_protect_request`); (2) every response the server
-protects for that request — with or without its own Partial IV, whatever the message — is accepted by the client and yields
-the server's message (`unprotect_protect_response`), and the binding is consumed unless the request was an Observe
-registration.  Matching contexts in both directions; the requests sent are encodable (sorted options, code < 256, OSCORE
+protects for that request — with or without its own Partial IV (both §8.3 forms: the client does not rely on D14.5),
+whatever the message — is accepted by the client and yields the server's message (`unprotect_protect_response`), and the
+binding is consumed unless the request was an Observe registration.  `sequence_roundtrip_server` below adds the server's
+side: which form it sends (D14.5) and what that does to ITS binding.  Matching contexts in both directions; the requests sent are encodable (sorted options, code < 256, OSCORE
 option ≤ 255 bytes). -/
 theorem sequence_roundtrip (cipher : Bytes → Bytes → Bytes) (cC cS : Ctx) (hCS : Matching cC cS) (hSC : Matching cS cC)
     (steps : List CStep)
@@ -576,7 +657,7 @@ theorem sequence_roundtrip (cipher : Bytes → Bytes → Bytes) (cC cS : Ctx) (h
       (optEncode ⟨pivBytes seq, cC.idctx, some cC.sid⟩).length ≤ 255)
     (t : Bytes) (e : Entry) (he : sFind (clientRun cipher cC [] steps) t = some e) :
     (∃ m seq pm, CStep.send m seq ∈ steps ∧ m.token = t ∧ protectRequest cipher cC m seq = some (pm, e.b) ∧
-        latestRequest cipher cC steps t = some e.b ∧ e.keep = isRegistration m.opts ∧
+        latestRequest cipher cC steps t = some e.b ∧ e.keep = isRegistration m.opts ∧ e.observe = hasObserve m.opts ∧
         unprotectRequest cipher cS pm = .ok m e.b) ∧
     (∀ (rm : Msg) (rseq sepMid : Option Nat) (r : Msg), rm.token = t →
         rm.opts.Pairwise (fun a b => a.1 ≤ b.1) → rm.code < 256 → (∀ o ∈ rm.opts, o.1 ≤ 65535 ∧ o.2.length ≤ 65804) →
@@ -587,7 +668,7 @@ theorem sequence_roundtrip (cipher : Bytes → Bytes → Bytes) (cC cS : Ctx) (h
   obtain ⟨hl, m, seq, pm, hmem, htok, hp, hkeep⟩ := (SInv_clientRun cipher cC steps) t e he
   obtain ⟨h1, h2, h3, h4⟩ := hwf m seq hmem
   constructor
-  · exact ⟨m, seq, pm, hmem, htok, hp, hl, hkeep,
+  · exact ⟨m, seq, pm, hmem, htok, hp, hl, hkeep.1, hkeep.2,
       unprotect_protect_request cipher cC cS m seq hCS h1 h2 h3 h4 (pm, e.b) hp⟩
   · intro rm rseq sepMid r hrt hs hc hw hr
     have htr : r.token = t := (protectResponse_token cipher cS e.b rm rseq sepMid r hr).trans hrt
@@ -595,6 +676,144 @@ theorem sequence_roundtrip (cipher : Bytes → Bytes → Bytes) (cC cS : Ctx) (h
     unfold clientRecv
     rw [htr, he]
     simp only [hv]
+
+/-- **A request that does not verify changes nothing** (D14.15 / D14.16 / D14.19, §8.2 "stop processing the request"):
+whatever is bound — to its token or to any other — stays bound as it was, so the response to an outstanding genuine request
+is still protected with THAT request's nonce, AAD and context.  In S at a server with one context and with several, and in
+M (`coap_oscore_decrypt_pdu` after fix 9631fdc: the association is created / refreshed after the AEAD has accepted; the
+old order replaced nonce, AAD, Partial IV and recipient context of the token's association by the forged request's). -/
+theorem rejected_request_keeps_bindings (cipher : Bytes → Bytes → Bytes) (c : Ctx) (cs : List Ctx) :
+    (∀ (st : Store) (pm : Msg), (∀ m b, (serverRecv cipher c st pm).1 ≠ .ok m b) → (serverRecv cipher c st pm).2 = st) ∧
+    (∀ (st : CStore) (pm : Msg), (∀ m b, (serverRecvAny cipher cs st pm).1 ≠ .ok m b) → (serverRecvAny cipher cs st pm).2 = st) ∧
+    (∀ (s : M.Oscore.Srv) (t : Bytes) (pos : M.Oscore.RPos) (aad nonce piv : Bytes) (o : Bool),
+      (M.Oscore.srvDecrypt s t pos aad nonce piv false o).as = s.as) := by
+  refine ⟨?_, ?_, fun s t pos aad nonce piv o => rfl⟩
+  · intro st pm h
+    unfold serverRecv at h ⊢
+    cases hv : unprotectRequest cipher c pm with
+    | plain => rfl
+    | rej => rfl
+    | ok m b =>
+      simp only [hv] at h
+      exact absurd rfl (h m b)
+  · intro st pm h
+    unfold serverRecvAny at h ⊢
+    split
+    · rename_i x b c0 hx hsel
+      simp only [hx, hsel] at h
+      exact absurd rfl (h x b)
+    · rfl
+
+/-- **The nonce of a request protects at most one response** (RFC 8613 §5.2 / §8.3 step 3; D14.5 + D14.16).  The server
+verifies request `pm` and protects a response `rm` for its token; `o` = the `observe` mark of the binding (`sObs`: set when the
+request carries Observe — `o_of_observe` —, inherited when it re-uses the token of a marked binding, otherwise — fresh token,
+unmarked binding — exactly "the request carries Observe").  EITHER the response carries its own Partial IV (fresh nonce from
+the server's Sender Sequence Number — always so for a marked binding), OR it is protected with the nonce of the request and
+then the binding is gone: no further response can be protected for that token until a new request with it has been verified
+(which brings its own nonce).  For every cipher, context, prior store, request and response. -/
+theorem request_nonce_at_most_once (cipher : Bytes → Bytes → Bytes) (c : Ctx) (st : Store) (pm m : Msg) (b : Binding)
+    (st1 : Store) (hrecv : serverRecv cipher c st pm = (.ok m b, st1))
+    (rm : Msg) (ask : Bool) (seq : Nat) (sepMid : Option Nat) (r : Msg) (st2 : Store) (htok : rm.token = pm.token)
+    (hsend : serverSend cipher c st1 rm ask seq sepMid = some (r, st2)) :
+    (hasObserve m.opts = true → sObs st pm.token m.opts = true) ∧
+    (sFind st pm.token = none → sObs st pm.token m.opts = hasObserve m.opts) ∧
+    ((ownPiv ask (sObs st pm.token m.opts) rm = true ∧ protectResponse cipher c b rm (some seq) sepMid = some r) ∨
+     (ownPiv ask (sObs st pm.token m.opts) rm = false ∧ hasObserve m.opts = false ∧
+       protectResponse cipher c b rm none sepMid = some r ∧ sFind st2 pm.token = none ∧
+       ∀ rm' ask' seq' sepMid', rm'.token = pm.token → serverSend cipher c st2 rm' ask' seq' sepMid' = none)) := by
+  refine ⟨fun h => by simp [sObs, h], fun h => by simp [sObs, h], ?_⟩
+  unfold serverRecv at hrecv
+  cases hv : unprotectRequest cipher c pm with
+  | plain => simp [hv] at hrecv
+  | rej => simp [hv] at hrecv
+  | ok m0 b0 =>
+    simp only [hv, Prod.mk.injEq, Verdict.ok.injEq] at hrecv
+    obtain ⟨⟨hm0, hb0⟩, hst⟩ := hrecv
+    subst hm0 hb0 hst
+    generalize hob : sObs st pm.token m0.opts = ob at *
+    have hfind : sFind (sSet st ⟨pm.token, b0, ob, ob⟩) rm.token = some ⟨pm.token, b0, ob, ob⟩ := by
+      rw [sFind_sSet]; simp [htok]
+    unfold serverSend at hsend
+    rw [hfind] at hsend
+    simp only at hsend
+    cases hp : protectResponseFor cipher c b0 ob rm ask seq sepMid with
+    | none => simp [hp] at hsend
+    | some r0 =>
+      simp only [hp, Option.some.injEq, Prod.mk.injEq] at hsend
+      obtain ⟨hr0, hst2⟩ := hsend
+      subst hr0
+      unfold protectResponseFor at hp
+      cases hown : ownPiv ask ob rm with
+      | true =>
+        left
+        simp only [hown, if_true] at hp
+        exact ⟨rfl, hp⟩
+      | false =>
+        right
+        simp only [hown, if_false, Bool.false_eq_true] at hp
+        have hobf : ob = false := by
+          unfold ownPiv at hown
+          simp only [Bool.or_eq_false_iff] at hown
+          exact hown.2
+        have hobs : hasObserve m0.opts = false := by
+          rw [hobf] at hob
+          unfold sObs at hob
+          simp only [Bool.or_eq_false_iff] at hob
+          exact hob.1
+        rw [hobf] at hst2
+        simp only [Bool.false_eq_true, if_false] at hst2
+        have hnone : sFind st2 pm.token = none := by
+          rw [← hst2, htok, sFind_sDel]; simp
+        refine ⟨rfl, hobs, hp, hnone, ?_⟩
+        intro rm' ask' seq' sepMid' ht'
+        unfold serverSend
+        rw [ht', hnone]
+
+/-- **Round trip over sequences, the server's side under D14.5.**  In the situation of `sequence_roundtrip` (any event
+history at the client, `e` = what it holds for token `t` afterwards) the server — whatever ITS store `sst` held before —
+verifies the latest request `pm` with `t`, and every response `rm` it then protects for `t` through `serverSend` (D14.5 decides
+the form: own Partial IV iff asked for, or `rm` carries Observe, or the binding is marked `observe`: the REQUEST carried
+Observe, or re-used the token of a marked binding) is accepted by the client and yields the server's message, with the Observe
+value taken from the Partial IV D14.5 selects. -/
+theorem sequence_roundtrip_server (cipher : Bytes → Bytes → Bytes) (cC cS : Ctx) (hCS : Matching cC cS) (hSC : Matching cS cC)
+    (steps : List CStep)
+    (hwf : ∀ m seq, CStep.send m seq ∈ steps →
+      m.opts.Pairwise (fun a b => a.1 ≤ b.1) ∧ m.code < 256 ∧ (∀ o ∈ m.opts, o.1 ≤ 65535 ∧ o.2.length ≤ 65804) ∧
+      (optEncode ⟨pivBytes seq, cC.idctx, some cC.sid⟩).length ≤ 255)
+    (t : Bytes) (e : Entry) (he : sFind (clientRun cipher cC [] steps) t = some e) (sst : Store) :
+    ∃ m seq pm, CStep.send m seq ∈ steps ∧ m.token = t ∧ protectRequest cipher cC m seq = some (pm, e.b) ∧
+      (serverRecv cipher cS sst pm).1 = .ok m e.b ∧
+      (hasObserve m.opts = true → sObs sst t m.opts = true) ∧ (sFind sst t = none → sObs sst t m.opts = hasObserve m.opts) ∧
+      ∀ (rm : Msg) (ask : Bool) (sseq : Nat) (sepMid : Option Nat) (r : Msg) (sst2 : Store), rm.token = t →
+        rm.opts.Pairwise (fun a b => a.1 ≤ b.1) → rm.code < 256 → (∀ o ∈ rm.opts, o.1 ≤ 65535 ∧ o.2.length ≤ 65804) →
+        serverSend cipher cS (serverRecv cipher cS sst pm).2 rm ask sseq sepMid = some (r, sst2) →
+        clientRecv cipher cC (clientRun cipher cC [] steps) r =
+          (.ok { normalize false (if ownPiv ask (sObs sst t m.opts) rm then pivBytes sseq else e.b.piv) rm with
+                   type := r.type, mid := r.mid } e.b,
+           if e.keep then clientRun cipher cC [] steps else sDel (clientRun cipher cC [] steps) t) := by
+  obtain ⟨⟨m, seq, pm, hmem, htok, hp, _, _, _, hu⟩, hresp⟩ := sequence_roundtrip cipher cC cS hCS hSC steps hwf t e he
+  have hpt : pm.token = t := (protectRequest_token cipher cC m seq (pm, e.b) hp).trans htok
+  have hrecv : serverRecv cipher cS sst pm =
+      (.ok m e.b, sSet sst ⟨pm.token, e.b, sObs sst pm.token m.opts, sObs sst pm.token m.opts⟩) := by
+    unfold serverRecv
+    simp only [hu]
+  refine ⟨m, seq, pm, hmem, htok, hp, by rw [hrecv], fun h => by simp [sObs, h], fun h => by simp [sObs, h], ?_⟩
+  intro rm ask sseq sepMid r sst2 hrt hs hc hw hsend
+  rw [hrecv, hpt] at hsend
+  unfold serverSend at hsend
+  have hfind : sFind (sSet sst ⟨t, e.b, sObs sst t m.opts, sObs sst t m.opts⟩) rm.token =
+      some ⟨t, e.b, sObs sst t m.opts, sObs sst t m.opts⟩ := by
+    rw [sFind_sSet]; simp [hrt]
+  simp only [hfind] at hsend
+  cases hpr : protectResponseFor cipher cS e.b (sObs sst t m.opts) rm ask sseq sepMid with
+  | none => simp [hpr] at hsend
+  | some r0 =>
+    simp only [hpr, Option.some.injEq, Prod.mk.injEq] at hsend
+    rw [← hsend.1]
+    unfold protectResponseFor at hpr
+    have := hresp rm _ sepMid r0 hrt hs hc hw hpr
+    rw [this]
+    cases ownPiv ask (sObs sst t m.opts) rm <;> rfl
 
 /-! ### Several security contexts at the recipient of a request (D14.18; S: Spec/OscoreCtx.lean, M: Model/OscoreCtx.lean) -/
 
@@ -758,64 +977,88 @@ theorem request_for_unknown_context_rejected (cipher : Bytes → Bytes → Bytes
 /-- **A response is protected with the context of the request it answers (S).**  A server holds the unambiguous set `cs`
 (D14.18); a client with the context `cC` matching `cR ∈ cs` protects request `m`; the server verifies it and then sees ANY
 sequence `mid` of events that concern other tokens — requests for any of its other contexts (each re-directs "the context
-used last"), forged ones, responses to other requests.  Then (1) the server recovered `m`, (2) the token of `m` is still
-bound to `m`'s binding AND to `cR` (RFC 8613 §8.3 step 1: "the Security Context associated with the Token"), and (3) every
-response the server protects for that token — with or without its own Partial IV — is unprotected by the client to the
-server's message.  For every block cipher, encodable messages. -/
+used last"), responses to other requests — or that are requests, WITH WHATEVER TOKEN (also `m`'s own), which do not verify
+(forged ones: they bind and re-bind nothing).  Then (1) the server recovered `m`, (2) the token of `m` is still
+bound to `m`'s binding AND to `cR` (RFC 8613 §8.3 step 1: "the Security Context associated with the Token"), marked
+`observe` iff `m` carried Observe or re-used the token of a marked binding (`cObs`; on a token not bound before: iff `m`
+carried Observe), (3) every response the server protects for that token — in the form D14.5 selects: own Partial IV iff
+asked for, or the response carries Observe, or the binding is marked — is unprotected by the client to the server's
+message, and (4) a response that used the nonce of the request has consumed the binding (the nonce of a request at most
+once).  For every block cipher, encodable messages. -/
 theorem interleaved_contexts_roundtrip (cipher : Bytes → Bytes → Bytes) (cs : List Ctx) (hu : Unambiguous cs)
     (cC cR : Ctx) (hR : cR ∈ cs) (hCR : Matching cC cR) (hRC : Matching cR cC) (m : Msg) (seq : Nat)
     (hsorted : m.opts.Pairwise (fun a b => a.1 ≤ b.1))
     (hcode : m.code < 256)
     (hwire : ∀ o ∈ m.opts, o.1 ≤ 65535 ∧ o.2.length ≤ 65804)
     (hopt : (optEncode ⟨pivBytes seq, cC.idctx, some cC.sid⟩).length ≤ 255)
-    (st : CStore) (mid : List XStep) (hmid : ∀ s ∈ mid, s.token ≠ m.token) :
+    (st : CStore) (mid : List XStep)
+    (hmid : ∀ s ∈ mid, s.token ≠ m.token ∨ ∃ pm, s = .recv pm ∧ ∀ x b, unprotectRequestAny cipher cs pm ≠ .ok x b) :
     ∀ r, protectRequest cipher cC m seq = some r →
       (serverRecvAny cipher cs st r.1).1 = .ok m r.2 ∧
       cFind (serverRunAny cipher cs (serverRecvAny cipher cs st r.1).2 mid) m.token =
-        some ⟨m.token, r.2, isRegistration m.opts, cR⟩ ∧
-      ∀ (rm : Msg) (rseq sepMid : Option Nat) (pr : Msg) (st3 : CStore), rm.token = m.token →
+        some ⟨m.token, r.2, cObs st m.token m.opts, cR, cObs st m.token m.opts⟩ ∧
+      (hasObserve m.opts = true → cObs st m.token m.opts = true) ∧
+      (cFind st m.token = none → cObs st m.token m.opts = hasObserve m.opts) ∧
+      ∀ (rm : Msg) (ask : Bool) (sseq : Nat) (sepMid : Option Nat) (pr : Msg) (st3 : CStore), rm.token = m.token →
         rm.opts.Pairwise (fun a b => a.1 ≤ b.1) → rm.code < 256 → (∀ o ∈ rm.opts, o.1 ≤ 65535 ∧ o.2.length ≤ 65804) →
-        serverSendAny cipher (serverRunAny cipher cs (serverRecvAny cipher cs st r.1).2 mid) rm rseq sepMid = some (pr, st3) →
+        serverSendAny cipher (serverRunAny cipher cs (serverRecvAny cipher cs st r.1).2 mid) rm ask sseq sepMid = some (pr, st3) →
         unprotectResponse cipher cC (some r.2) pr =
-          .ok { normalize false (match rseq with | some n => pivBytes n | none => r.2.piv) rm with type := pr.type, mid := pr.mid } r.2 := by
+          .ok { normalize false (if ownPiv ask (cObs st m.token m.opts) rm then pivBytes sseq else r.2.piv) rm with
+                  type := pr.type, mid := pr.mid } r.2 ∧
+        (ownPiv ask (cObs st m.token m.opts) rm = false → cFind st3 m.token = none) := by
   intro r hr
   have hone := unprotect_protect_request cipher cC cR m seq hCR hsorted hcode hwire hopt r hr
   have hany := unprotect_any_eq cipher cs hu cR hR r.1 m r.2 hone
   have hsel := selectFor_of_ok cipher cs hu cR hR r.1 m r.2 hone
   have htok := protectRequest_token cipher cC m seq r hr
-  have hrecv : serverRecvAny cipher cs st r.1 = (.ok m r.2, cSet st ⟨m.token, r.2, isRegistration m.opts, cR⟩) := by
+  have hrecv : serverRecvAny cipher cs st r.1 =
+      (.ok m r.2, cSet st ⟨m.token, r.2, cObs st m.token m.opts, cR, cObs st m.token m.opts⟩) := by
     unfold serverRecvAny
     simp only [hany, hsel, htok]
   have hfind : cFind (serverRunAny cipher cs (serverRecvAny cipher cs st r.1).2 mid) m.token =
-      some ⟨m.token, r.2, isRegistration m.opts, cR⟩ := by
-    rw [cFind_run_ne cipher cs mid m.token hmid, hrecv]
+      some ⟨m.token, r.2, cObs st m.token m.opts, cR, cObs st m.token m.opts⟩ := by
+    rw [cFind_run_leaves cipher cs mid m.token hmid, hrecv]
     simp only
     rw [cFind_cSet]
     simp
-  refine ⟨by rw [hrecv], hfind, ?_⟩
-  intro rm rseq sepMid pr st3 hrt hs hc hw hsend
+  refine ⟨by rw [hrecv], hfind, fun h => by simp [cObs, h], fun h => by simp [cObs, h], ?_⟩
+  intro rm ask sseq sepMid pr st3 hrt hs hc hw hsend
   unfold serverSendAny at hsend
   rw [hrt, hfind] at hsend
   simp only at hsend
-  cases hp : protectResponse cipher cR r.2 rm rseq sepMid with
+  cases hp : protectResponseFor cipher cR r.2 (cObs st m.token m.opts) rm ask sseq sepMid with
   | none => simp [hp] at hsend
   | some pr0 =>
     simp only [hp, Option.some.injEq, Prod.mk.injEq] at hsend
     rw [← hsend.1]
-    exact unprotect_protect_response cipher cR cC r.2 rm rseq sepMid hRC hs hc hw pr0 hp
+    refine ⟨unprotect_protect_response_for cipher cR cC r.2 (cObs st m.token m.opts) rm ask sseq sepMid hRC hs hc hw pr0 hp, ?_⟩
+    intro hown
+    have hreg : cObs st m.token m.opts = false := by
+      unfold ownPiv at hown
+      simp only [Bool.or_eq_false_iff] at hown
+      exact hown.2
+    have h3 := hsend.2
+    rw [hreg] at h3
+    simp only [Bool.false_eq_true, if_false] at h3
+    rw [← h3, cFind_cDel]
+    simp
 
 /-- **The same for libcoap's server session (M)**: for every sequence of `decrypt` steps (a request arrives for which
 `oscore_find_context` returned the recipient context `pos`; verified or not, with or without Observe) and `protect` steps
 (a response has been protected), the recipient context `coap_oscore_new_pdu_encrypted_lkd` takes the Sender Context of a
-response from — `association->recipient_ctx` — is the one of the LATEST `decrypt` step with the response's token; and after a
-`decrypt` step for `t` it is that step's context whatever happens later to other tokens (in particular: whatever
-`session->recipient_ctx` has become).  A transcription that reads `session->recipient_ctx` instead does not satisfy it
-(`example` below). -/
+response from — `association->recipient_ctx` — is the one of the LATEST VERIFIED `decrypt` step with the response's token;
+and after a verified `decrypt` step for `t` the association holds that step's context, nonce, AAD and Partial IV whatever
+happens later to other tokens (in particular: whatever `session->recipient_ctx` has become) AND whatever requests that do
+not verify arrive with the SAME token (fix 9631fdc: before, such a request replaced all four).  A transcription that reads
+`session->recipient_ctx` instead, or one that refreshes the association before the AEAD has run, does not satisfy it
+(`example`s below). -/
 theorem response_ctx_is_request_ctx_impl (steps : List M.Oscore.SrvStep) :
     (∀ t pos, M.Oscore.srvResponseCtx (M.Oscore.srvRun ⟨none, []⟩ steps) t = some pos →
       M.Oscore.srvLatest steps t = some pos) ∧
-    (∀ t pos aad nonce piv v o (later : List M.Oscore.SrvStep), (∀ x ∈ later, SrvStepToken x ≠ t) →
-      M.Oscore.srvResponseCtx (M.Oscore.srvRun ⟨none, []⟩ (steps ++ [.decrypt t pos aad nonce piv v o] ++ later)) t = some pos) := by
+    (∀ t pos aad nonce piv o (later : List M.Oscore.SrvStep), (∀ x ∈ later, SrvStepLeaves t x) →
+      M.Oscore.srvResponseCtx (M.Oscore.srvRun ⟨none, []⟩ (steps ++ [.decrypt t pos aad nonce piv true o] ++ later)) t = some pos ∧
+      ∃ a, M.Oscore.findSAssoc (M.Oscore.srvRun ⟨none, []⟩ (steps ++ [.decrypt t pos aad nonce piv true o] ++ later)).as t = some a ∧
+        a.rcp = pos ∧ a.piv = piv ∧ a.nonce = nonce ∧ a.aad = aad ∧ (o = true → a.isObserve = true)) := by
   constructor
   · intro t pos h
     have h0 : SrvInv ⟨none, []⟩ (fun _ => none) := by
@@ -830,17 +1073,59 @@ theorem response_ctx_is_request_ctx_impl (steps : List M.Oscore.SrvStep) :
       have := hinv t a hf
       rw [← h]
       exact this
-  · intro t pos aad nonce piv v o later hl
-    unfold M.Oscore.srvResponseCtx M.Oscore.srvRun
-    rw [List.foldl_append, List.foldl_append, List.foldl_cons, List.foldl_nil]
-    have h1 := findSAssoc_run_ne later t hl (M.Oscore.srvStep (List.foldl M.Oscore.srvStep ⟨none, []⟩ steps) (.decrypt t pos aad nonce piv v o))
-    unfold M.Oscore.srvRun at h1
-    rw [h1]
-    obtain ⟨a, ha, hr, _⟩ := (findSAssoc_decrypt (List.foldl M.Oscore.srvStep ⟨none, []⟩ steps) t pos aad nonce piv v o t).1 rfl
-    have hstep : M.Oscore.srvStep (List.foldl M.Oscore.srvStep ⟨none, []⟩ steps) (.decrypt t pos aad nonce piv v o) =
-        M.Oscore.srvDecrypt (List.foldl M.Oscore.srvStep ⟨none, []⟩ steps) t pos aad nonce piv v o := rfl
-    rw [hstep, ha]
-    simp [hr]
+  · intro t pos aad nonce piv o later hl
+    have hrun : M.Oscore.findSAssoc (M.Oscore.srvRun ⟨none, []⟩ (steps ++ [.decrypt t pos aad nonce piv true o] ++ later)).as t =
+        M.Oscore.findSAssoc (M.Oscore.srvDecrypt (List.foldl M.Oscore.srvStep ⟨none, []⟩ steps) t pos aad nonce piv true o).as t := by
+      unfold M.Oscore.srvRun
+      rw [List.foldl_append, List.foldl_append, List.foldl_cons, List.foldl_nil]
+      have h1 := findSAssoc_run_leaves later t hl
+        (M.Oscore.srvStep (List.foldl M.Oscore.srvStep ⟨none, []⟩ steps) (.decrypt t pos aad nonce piv true o))
+      unfold M.Oscore.srvRun at h1
+      rw [h1]
+      rfl
+    obtain ⟨a, ha, hr⟩ := (findSAssoc_decrypt (List.foldl M.Oscore.srvStep ⟨none, []⟩ steps) t pos aad nonce piv o t).1 rfl
+    refine ⟨?_, a, by rw [hrun, ha], hr⟩
+    unfold M.Oscore.srvResponseCtx
+    rw [hrun, ha]
+    simp [hr.1]
+
+/-- **libcoap (M) gives every response to an Observe request its own Partial IV** (fix ae365ed), and agrees with D14.5 on
+the others.  After a verified `decrypt` step for token `t` whose plaintext carried Observe — and whatever steps follow that
+leave the association alone (other tokens, forged requests with `t`) — `coap_oscore_new_pdu_encrypted_lkd` takes the
+Partial IV / `oscore_increment_sender_seq` branch for a response with token `t` whether or not the response carries Observe
+and whether or not the caller asked (`srvOwnPiv … = some true`); protecting that response leaves the association (so the next
+response is in the same situation: the request's nonce is never handed to the AEAD).  For an association whose
+`is_observe` is 0 the decision is D14.5's `ask || response carries Observe`, and protecting the response deletes it. -/
+theorem observe_request_own_piv_impl (steps : List M.Oscore.SrvStep) (t : Bytes) (pos : M.Oscore.RPos) (aad nonce piv : Bytes)
+    (later : List M.Oscore.SrvStep) (hl : ∀ x ∈ later, SrvStepLeaves t x) :
+    (∀ d ask, M.Oscore.srvOwnPiv (M.Oscore.srvRun ⟨none, []⟩ (steps ++ [.decrypt t pos aad nonce piv true true] ++ later)) t d ask =
+        some true) ∧
+    M.Oscore.srvProtect (M.Oscore.srvRun ⟨none, []⟩ (steps ++ [.decrypt t pos aad nonce piv true true] ++ later)) t =
+      M.Oscore.srvRun ⟨none, []⟩ (steps ++ [.decrypt t pos aad nonce piv true true] ++ later) ∧
+    (∀ (s : M.Oscore.Srv) (a : M.Oscore.SAssoc) (d ask : Bool), M.Oscore.findSAssoc s.as t = some a → a.isObserve = false →
+      M.Oscore.srvOwnPiv s t d ask = some (ownPiv ask false ⟨0, 0, 0, [], if d then [(optObserve, [])] else [], []⟩) ∧
+      M.Oscore.findSAssoc (M.Oscore.srvProtect s t).as t = none) := by
+  obtain ⟨_, a, ha, _, _, _, _, hobs⟩ :=
+    (response_ctx_is_request_ctx_impl steps).2 t pos aad nonce piv true later hl
+  have hio : a.isObserve = true := hobs rfl
+  refine ⟨?_, ?_, ?_⟩
+  · intro d ask
+    unfold M.Oscore.srvOwnPiv
+    rw [ha]
+    cases d <;> cases ask <;> simp [hio]
+  · unfold M.Oscore.srvProtect
+    rw [ha]
+    simp [hio]
+  · intro s a0 d ask hf hno
+    constructor
+    · unfold M.Oscore.srvOwnPiv
+      rw [hf]
+      cases d <;> cases ask <;> simp [hno, ownPiv, hasObserve]
+    · unfold M.Oscore.srvProtect
+      rw [hf]
+      simp only [hno, Bool.false_eq_true, if_false]
+      rw [findSAssoc_filter]
+      simp
 
 /-! ### Non-vacuity: concrete instances of the hypotheses -/
 
@@ -1003,9 +1288,51 @@ example :
     M.Oscore.srvResponseCtx s [1] = some (0, 0) ∧ s.rcp = some (1, 0) ∧
     M.Oscore.srvLatest [.decrypt [1] (0, 0) [] [] [0x14] true false, .decrypt [2] (1, 0) [] [] [0x15] true false] [1] = some (0, 0) ∧
     M.Oscore.srvResponseCtx (M.Oscore.srvProtect s [1]) [1] = none := by decide
-example : (∀ s ∈ [XStep.recv ⟨0, 2, 7, [2], [(9, [9, 0x15, 0x0b])], [1, 2, 3]⟩, XStep.send ⟨1, 69, 9, [3], [], []⟩ none none], s.token ≠ [1]) := by
+example : (∀ s ∈ [XStep.recv ⟨0, 2, 7, [2], [(9, [9, 0x15, 0x0b])], [1, 2, 3]⟩, XStep.send ⟨1, 69, 9, [3], [], []⟩ false 7 none], s.token ≠ [1]) := by
   decide
 example : Unambiguous [⟨[1], [0x0a], none, 10, [1], [2], [3]⟩, ⟨[2], [0x0b], none, 10, [4], [5], [6]⟩] := by
   unfold Unambiguous; decide
+/-- the second arm of `hmid`: a request that names a held context (kid 0x0b) but does not verify (toy cipher: the tag does
+not match) — with any token, also the one of the pending exchange -/
+example : unprotectRequestAny (fun _ b => b) [⟨[1], [0x0a], none, 10, [1], [2], [3]⟩, ⟨[2], [0x0b], none, 10, [4], [5], [6]⟩]
+    ⟨0, 2, 7, [1], [(9, [9, 0x15, 0x0b])], [1, 2, 3, 4, 5, 6, 7, 8, 9, 10]⟩ = .rej := by decide
+
+/-! ### Non-vacuity of the D14.5 / verify-then-bind theorems (round Y15) -/
+
+/-- D14.5: who gets a Partial IV — asked for; a notification; ANY response to a request that carried Observe (also a 4.04
+without Observe option); not: a plain response to a plain request -/
+example : ownPiv true false ⟨2, 69, 7, [9], [], []⟩ = true ∧ ownPiv false false ⟨2, 69, 7, [9], [(6, [1])], []⟩ = true ∧
+    ownPiv false true ⟨2, 132, 7, [9], [], []⟩ = true ∧ ownPiv false false ⟨2, 69, 7, [9], [(12, [])], []⟩ = false := by decide
+
+/-- a 4.04 without Observe answering an Observe request: OSCORE option 01 2a (own Partial IV 42), and another request nonce
+in the binding gives the same message; answering a plain request: empty option, and the request nonce matters -/
+example :
+    ((protectResponseFor (fun _ b => b) ⟨[1], [], none, 10, [3, 4], [1, 2], [5]⟩ ⟨[], [0x14], [0]⟩ true ⟨2, 132, 7, [9], [], []⟩
+      false 42 none).map fun r => oscoreValue r.opts) = some (some [1, 42]) ∧
+    protectResponseFor (fun _ b => b) ⟨[1], [], none, 10, [3, 4], [1, 2], [5]⟩ ⟨[], [0x14], [0]⟩ true ⟨2, 132, 7, [9], [], []⟩ false 42 none =
+      protectResponseFor (fun _ b => b) ⟨[1], [], none, 10, [3, 4], [1, 2], [5]⟩ ⟨[], [0x14], [77]⟩ true ⟨2, 132, 7, [9], [], []⟩ false 42 none ∧
+    ((protectResponseFor (fun _ b => b) ⟨[1], [], none, 10, [3, 4], [1, 2], [5]⟩ ⟨[], [0x14], [0]⟩ false ⟨2, 132, 7, [9], [], []⟩
+      false 42 none).map fun r => oscoreValue r.opts) = some (some []) := by decide
+
+/-- M, fix 9631fdc: genuine request (token 01, context (0,0), nonce 07), then a forged request with the SAME token for
+context (1,0) that fails the AEAD: `session->recipient_ctx` moves, the association keeps context, nonce, AAD and Partial IV
+of the genuine request (the order before the fix — refresh, then verify — gives nonce 09 / context (1,0) here); a forged
+request with a new token leaves no association behind -/
+example :
+    let s := M.Oscore.srvRun ⟨none, []⟩ [.decrypt [1] (0, 0) [5] [7] [0x14] true false, .decrypt [1] (1, 0) [6] [9] [0x99] false false,
+                                         .decrypt [2] (1, 0) [6] [9] [0x99] false true]
+    s.as = [⟨[1], (0, 0), [5], [7], [0x14], false⟩] ∧ s.rcp = some (1, 0) ∧
+    SrvStepLeaves [1] (.decrypt [1] (1, 0) [6] [9] [0x99] false false) ∧ SrvStepLeaves [1] (.decrypt [2] (1, 0) [6] [9] [0x99] false true) := by
+  refine ⟨by decide, by decide, Or.inr rfl, Or.inl (by decide)⟩
+
+/-- M, fix ae365ed: the association of an Observe request forces the Partial IV for a response without Observe that did not
+ask for one, and stays; the association of a plain request does not, and goes with the response -/
+example :
+    let s := M.Oscore.srvRun ⟨none, []⟩ [.decrypt [1] (0, 0) [5] [7] [0x14] true true, .decrypt [2] (0, 0) [5] [8] [0x15] true false]
+    M.Oscore.srvOwnPiv s [1] false false = some true ∧ M.Oscore.srvOwnPiv s [2] false false = some false ∧
+    M.Oscore.srvOwnPiv s [2] true false = some true ∧ M.Oscore.srvOwnPiv s [2] false true = some true ∧
+    M.Oscore.srvOwnPiv s [3] false true = none ∧
+    M.Oscore.srvOwnPiv (M.Oscore.srvProtect s [1]) [1] false false = some true ∧
+    M.Oscore.srvOwnPiv (M.Oscore.srvProtect s [2]) [2] false false = none := by decide
 
 end Coap.C14
